@@ -145,7 +145,7 @@ def write_xsec_exotransmit(path, wn, T, P_pa, xsec_cm2, order='wavelength-ascend
 CIA_PAIRS = ['H2-H2', 'H2-He', 'N2-N2', 'CO2-CO2', 'N2-H2', 'O2-O2', 'CH4-He']
 
 
-def cia_physical_table(rng, interior_gap=False):
+def cia_physical_table(rng, interior_gap=False, near_ranges=False):
     """A HITRAN-style CIA data set: 1..3 disjoint wavenumber ranges, each tabulated at its own subset of the
     temperatures.  Returns (blocks, expected) where blocks = [(range_id, wn[], T, sigma_m5[])] in file order and
     expected = dict(wn, T, x[T, wn]) is the unified table the reader documents: zeros outside a range's own
@@ -181,6 +181,17 @@ def cia_physical_table(rng, interior_gap=False):
         mag = rng.uniform(-56, -44)
         sig = {float(t): 10 ** (mag + rng.normal(0, 0.5, n)) for t in own}
         groups.append({'wn': wn, 'temps': own, 'sigma': sig})
+        if near_ranges and gi == 0:
+            # a second range whose limits differ from this one's only from the seventh significant digit on (the same
+            # band re-measured on a grid a hair off), as many points, tabulated at its own temperatures: another range
+            # all the same, its records interleave with this one's in the unified table
+            eps_ = float(10 ** rng.uniform(-7.0, -6.2))
+            wn2 = np.array(wn) * (1.0 + eps_)
+            wn2[-1] = wn[-1] * (1.0 - eps_)
+            k2 = int(rng.integers(1, nT + 1))
+            own2 = np.sort(rng.choice(temps, k2, replace=False))
+            sig2 = {float(t): 10 ** (mag + rng.normal(0, 0.5, n)) for t in own2}
+            groups.append({'wn': wn2, 'temps': own2, 'sigma': sig2})
     # expected unified table
     wn_all = np.concatenate([g['wn'] for g in groups])
     x = np.zeros((nT, len(wn_all)))
@@ -206,10 +217,17 @@ def cia_physical_table(rng, interior_gap=False):
         for t in g['temps']:
             blocks.append((gi, g['wn'], float(t), g['sigma'][float(t)]))
     spans, c = [], 0
-    for g in groups:           # (first column, end column, lowest and highest temperature the range is tabulated at)
+    col_group = np.zeros(len(wn_all), dtype=int)
+    for gi, g in enumerate(groups):   # (first column, end column, lowest and highest temperature the range is tabulated at)
         spans.append((c, c + len(g['wn']), float(g['temps'].min()), float(g['temps'].max())))
+        col_group[c:c + len(g['wn'])] = gi
         c += len(g['wn'])
+    # the unified table is in ascending wavenumber (ranges that interleave are merged record by record)
+    order = np.argsort(wn_all, kind='stable')
+    wn_all, x, col_group = wn_all[order], x[:, order], col_group[order]
+    ngroups = len(groups)
     return blocks, {'wn': wn_all, 'T': temps, 'x': x, 'ngroups': ngroups, 'groups': spans, 'gapped': gapped,
+                    'order': order, 'col_group': col_group,
                     'partial': any(len(g['temps']) < nT for g in groups),
                     'shared_wavenumber': bool(len(np.unique(wn_all)) != len(wn_all))}
 
